@@ -239,6 +239,9 @@ def range_bits(lo, hi):
 
 def pred_formula(facts, summ, key):
     """Formula over CPARAM of a char predicate given as closure (param = arg2) or as fn item (param = arg1)."""
+    if isinstance(key, tuple) and key[0] == "bytes":
+        # a predicate over the UTF-8 bytes of the text: see the `bytepred` node of charset()
+        return ("bytepred", pred_formula(facts, summ, key[1]))
     f = summ.summary(key)
     idx = 2 if facts.bodies[key].kind == "closure" else 1
     return subst_formula(f, {idx: CPARAM})
@@ -363,10 +366,16 @@ def charset(f, facts=None):
     if k == "not":
         return universe() & ~charset(f[1], facts)
     if k == "bytepred":
+        # s.bytes().all(P) / .any(P) as a statement about the characters of s: every byte of a non-ASCII character is >= 0x80,
+        # so P must treat all those bytes alike -- then it is the char predicate "P on ASCII, that constant elsewhere"
         v = charset(f[1], facts)
-        if v & (((1 << 256) - 1) ^ ((1 << 128) - 1)):
-            raise AnchorError("a predicate over UTF-8 bytes accepts bytes >= 0x80: it is not a predicate over characters")
-        return v & ((1 << 128) - 1)
+        ascii_ = (1 << 128) - 1
+        high = (v >> 128) & ascii_
+        if high == 0:
+            return v & ascii_
+        if high == ascii_:
+            return (v & ascii_) | (universe() & ~ascii_)
+        raise AnchorError("a predicate over UTF-8 bytes distinguishes between bytes >= 0x80: it is not a predicate over characters")
     if k == "and":
         v = universe()
         for x in f[1]:
@@ -405,12 +414,20 @@ def charset(f, facts=None):
                 return v
         if name in ("binop:Le", "binop:Lt", "binop:Ge", "binop:Gt") and len(args) == 2:
             op = name.split(":")[1]
-            if args[1] == CPARAM and const_chars(args[0]) and len(const_chars(args[0])) == 1:
-                k = const_chars(args[0])[0]   # k op c
+
+            def point(t):
+                cs = const_chars(t)
+                if cs and len(cs) == 1:
+                    return cs[0]
+                if t[0] == "const" and isinstance(t[1], int) and not isinstance(t[1], bool) and 0 <= t[1] < 256:
+                    return t[1]   # a byte constant (u8 comparisons of a bytes() predicate)
+                return None
+            if args[1] == CPARAM and point(args[0]) is not None:
+                k = point(args[0])   # k op c
                 lo, hi = {"Le": (k, MAXC - 1), "Lt": (k + 1, MAXC - 1), "Ge": (0, k), "Gt": (0, k - 1)}[op]
                 return range_bits(lo, hi)
-            if args[0] == CPARAM and const_chars(args[1]) and len(const_chars(args[1])) == 1:
-                k = const_chars(args[1])[0]   # c op k
+            if args[0] == CPARAM and point(args[1]) is not None:
+                k = point(args[1])   # c op k
                 lo, hi = {"Le": (0, k), "Lt": (0, k - 1), "Ge": (k, MAXC - 1), "Gt": (k + 1, MAXC - 1)}[op]
                 return range_bits(lo, hi)
         if name in ("binop:Eq", "binop:Ne") and len(args) == 2:
